@@ -1,7 +1,7 @@
 """Engine C - chunked-evaluation sites (map_overlap / map_blocks) and kernel footprints."""
 import ast
 
-from .kai import Arr, Interp, View, interpret
+from .kai import Arr, Interp, TupleV, View, interpret
 from .kutil import guard_atoms, returned_arrays
 from .program import AnalysisIncomplete, Ext, Func, Partial, norm
 from .sym import App, Rat, Sym, walk_atoms
@@ -378,8 +378,9 @@ def radius_ok(depth, los, his, odd_arrays=()):
     return bad
 
 
-def eval_in_scope(prog, f, exprs, rename=None):
-    """Evaluate expressions in the straight-line scope of function f (non-strict interpreter)."""
+def eval_in_scope(prog, f, exprs, rename=None, pair=False):
+    """Evaluate expressions in the straight-line scope of function f (non-strict interpreter); with `pair`, an expression whose
+    value is a pair (a name bound to `(a, b)`) gives its two components."""
     it = Interp(prog, f, strict=False)
     for st in f.body:
         if isinstance(st, ast.Return):
@@ -390,5 +391,8 @@ def eval_in_scope(prog, f, exprs, rename=None):
             pass
     out = []
     for e in exprs:
-        out.append(it.as_scalar(it.ev(e)))
+        v = it.ev(e)
+        if pair and isinstance(v, TupleV) and len(v.items) == 2:
+            return [it.as_scalar(x) for x in v.items]
+        out.append(it.as_scalar(v))
     return out
